@@ -430,6 +430,7 @@ class Engine:
         self.facts = []  # (cond z3 Bool, Atom, NF value) : cond => atom == value
         self.ufacts = []  # universal facts: (fn k -> z3 Bool), instantiated on demand (never sent quantified)
         self.vec_table = {}
+        self._vcache = {}
         self.path_id = "p" + "".join("T" if d else "F" for d in prefix) if prefix else "p"
 
     def fresh(self, base, sort="int"):
@@ -621,41 +622,73 @@ class Engine:
         self.facts.append((cond, atom, value))
 
     def canon_nf(self, x: NF):
-        """Apply path facts (atom = 0 / 1 when its sentinel tag is forced) and merge integer
-        arguments that are provably equal under the path condition; recurse into nested NFs."""
-        # 1. facts
-        changed = True
-        guard = 0
-        while changed and guard < 8:
-            guard += 1
-            changed = False
-            atoms = _all_atoms(x)
-            mapping = {}
-            for cond, atom, value in self.facts:
-                if (atom in atoms or atom.dagger() in atoms) and atom not in mapping:
-                    if self.valid(cond):
-                        mapping[atom] = value
-            if mapping:
-                x = _deep_subst(x, mapping)
-                changed = True
-        # 2. integer-argument canonicalisation
-        leaves = {}
-        for a in _all_atoms(x):
-            for zk in _zk_leaves(a.key):
-                if zk.e.sort() == z3.IntSort():
+        """Merge integer/array arguments that are provably equal under the path condition, then
+        apply the path facts (atom = 0 / 1 when its sentinel tag is forced); recurse into nested
+        NFs (also inside the atoms the facts speak about); iterate to a fixpoint."""
+        facts = [(c, a, v) for c, a, v in self.facts if self._validcache(c)]
+        for _round in range(8):
+            # 1. canonical representatives for all z3 leaves of x and of the fact atoms
+            leaves = {}
+            for a in _all_atoms(x):
+                for zk in _zk_leaves(a.key):
                     leaves[zk] = zk.e
-        reps = []
-        ren = {}
-        for zk, e in sorted(leaves.items(), key=lambda t: str(t[1])):
-            for r in reps:
-                if self.valid(r == e):
-                    ren[zk] = ZK(r)
-                    break
-            else:
-                reps.append(e)
-        if ren:
-            x = _deep_rekey(x, ren)
+            for _c, atom, _v in facts:
+                for zk in _zk_leaves(atom.key):
+                    leaves[zk] = zk.e
+            reps = {}
+            ren = {}
+            for zk, e in sorted(leaves.items(), key=lambda t: str(t[1])):
+                srt = str(e.sort())
+                for r in reps.setdefault(srt, []):
+                    if self._eqcache(r, e):
+                        ren[zk] = ZK(r)
+                        break
+                else:
+                    reps[srt].append(e)
+            x1 = _deep_rekey(x, ren) if ren else x
+            facts1 = [(c, Atom(_rekey(a.key, ren), a.dag), v) for c, a, v in facts] if ren else facts
+            # 2. facts: first normalise the fact atoms themselves by the facts about simpler atoms
+            mapping = {}
+            for _c, a, v in facts1:
+                if a not in mapping:
+                    mapping[a] = v
+            changed = True
+            guard = 0
+            while changed and guard < 6:
+                guard += 1
+                changed = False
+                new_map = {}
+                for a, v in mapping.items():
+                    k2 = _subst_key(a.key, {b: w for b, w in mapping.items() if b != a})
+                    a2 = Atom(k2, a.dag)
+                    if a2 != a:
+                        changed = True
+                    new_map.setdefault(a2, v)
+                mapping = new_map
+            facts = [(None, a, v) for a, v in mapping.items()]
+            x2 = _deep_subst(x1, mapping) if mapping else x1
+            if x2 == x:
+                return x2
+            x = x2
         return x
+
+    def _eqcache(self, a, b):
+        if a.get_id() == b.get_id():
+            return True
+        key = ("eq", a.get_id(), b.get_id(), len(self.pc))
+        c = self._vcache
+        if key not in c:
+            c[key] = self.valid(a == b)
+        return c[key]
+
+    def _validcache(self, cond):
+        if cond is None:
+            return True
+        key = ("v", cond.get_id(), len(self.pc))
+        c = self._vcache
+        if key not in c:
+            c[key] = self.valid(cond)
+        return c[key]
 
     # ---- calling ---------------------------------------------------------------------
     def call_closure(self, clo: Closure, args, kwargs):
@@ -1015,7 +1048,19 @@ class Engine:
         return STup([self.eval(x, env) for x in e.elts], None, True)
 
     def e_JoinedStr(self, e, env):
-        return SStr()
+        parts = []
+        for v in e.values:
+            if isinstance(v, ast.Constant):
+                parts.append(str(v.value))
+            elif isinstance(v, ast.FormattedValue) and v.format_spec is None and v.conversion == -1:
+                x = self.eval(v.value, env)
+                if isinstance(x, (str, int)) and not isinstance(x, bool):
+                    parts.append(str(x))
+                else:
+                    return SStr()
+            else:
+                return SStr()
+        return "".join(parts)
 
     def e_Lambda(self, e, env):
         return Closure(e, env)
@@ -1349,6 +1394,8 @@ class Engine:
         raise Unsupported(f"comparison {type(op).__name__}")
 
     def compare_eq(self, l, r):
+        if l is r and not isinstance(l, (SI, SB)):
+            return True
         if isinstance(l, Model):
             res = l.m_binop(self, ast.Eq(), r, False)
             if res is not NotImplemented:
